@@ -45,6 +45,7 @@ func preemptVariants() []variant {
 	return []variant{
 		{Name: "preempt-nofault", Profile: "preempt", Policy: "rtc", Steps: 110, Weight: 4},
 		{Name: "preempt-confirm", Profile: "preempt", Policy: "rtc", Steps: 110, Faults: confirmFaults, FaultRate: 0.03, Weight: 3},
+		{Name: "preempt-late", Profile: "preempt", Policy: "rtc", Steps: 110, Faults: []string{"confirm_late", "confirm_dup"}, FaultRate: 0.1, Weight: 3},
 		{Name: "preempt-reload", Profile: "preempt", Policy: "rtc", Steps: 110, Faults: with(confirmFaults, "reload_valid"), FaultRate: 0.03, Weight: 3},
 		{Name: "preempt-churn", Profile: "preempt", Policy: "rtc", Steps: 110, Faults: with(confirmFaults, "node_loss", "app_remove_live", "clock_jump", "predicate_flap"), FaultRate: 0.03, Weight: 2},
 	}
